@@ -82,6 +82,7 @@ def cases(tier, seed):
     # holds must stay self-consistent (its stored potential reproduces the sum from its stored currents)
     for d, tol in itertools.product(("G1s", "G5"), (1e-2, 1e-3) if quick else tols):
         out.append(dict(fam="sweep", dev=d, tol=tol, fields=[0.2, 0.5, 0.35]))
+        out.append(dict(fam="sweep", dev=d, tol=tol, fields=[0.2, 0.5, 0.35], reuse_options=True))
     return out
 
 
@@ -379,9 +380,16 @@ def run_sweep(case):
     dt = 2.0**-5
     held = []  # (solution, path, label of its last frame)
     seed = None
+    shared = None
     for i, B in enumerate(case["fields"]):
         opts = tdgl.SolverOptions(solve_time=4 * dt, dt_init=dt, dt_max=dt, adaptive=False, save_every=2, output_file=f"sweep{i}.h5",
                                   include_screening=True, screening_tolerance=case["tol"], progress_interval=10**9)
+        if case.get("reuse_options"):
+            # the caller keeps one options object for the whole sweep and only edits the output path
+            if shared is None:
+                shared = opts
+            shared.output_file = f"sweep{i}.h5"
+            opts = shared
         try:
             sol = tdgl.solve(dev, opts, applied_vector_potential=B, seed_solution=seed)
         except RuntimeError as exc:
